@@ -13,11 +13,18 @@
 (***************************************************************************)
 EXTENDS MC_Cache, Json
 
-CONSTANT Depth
+CONSTANTS Depth,
+          ClientOps    \* [client -> public calls it may issue] (narrows Ops per client)
 VARIABLES act, hist
 
 simvars == <<mcvars, act, hist>>
 KeysSim == { <<1, 1>>, <<3, 3>>, <<1, 2>> }
+AllOps == [c \in Clients |-> {"insert", "insert_if_present", "remove", "get", "get_mut", "get_ttl", "clear", "close", "wait", "set_max"}]
+\* client 1 writes / waits / removes, client 2 clears (and writes): the clear-vs-item races without clear-vs-clear blow-up
+WriterClearer == [c \in Clients |-> IF c = 1 THEN {"insert", "wait", "remove"} ELSE {"clear", "insert"}]
+WaiterCloser == [c \in Clients |-> IF c = 1 THEN {"insert", "wait"} ELSE {"close"}]
+KeysSimOne == { <<1, 1>> }
+ConfSimOne == { [bufcap |-> 2, itemsize |-> 0, flavor |-> "sync", coster |-> "const2", validator |-> "always"] }
 ConfSim == { [bufcap |-> b, itemsize |-> 0, flavor |-> "sync", coster |-> "const2", validator |-> "always"] : b \in {1, 2} }
 
 SimInit == MCInit /\ act = <<"init">> /\ hist = <<[a |-> "conf", bufcap |-> conf.bufcap, max |-> maxCost]>>
@@ -26,21 +33,21 @@ L(r) == act' = r /\ hist' = Append(hist, r)
 
 SimClientStart(c) ==
     /\ Start(c)
-    /\ \/ /\ "insert" \in Ops /\ nextVal \in Val /\ nextVal' = nextVal + 1
+    /\ \/ /\ "insert" \in (Ops \cap ClientOps[c]) /\ nextVal \in Val /\ nextVal' = nextVal + 1
           /\ \E k \in MCKeys, cost \in CostSet, d \in TtlSet :
                 InsBegin(c, k, nextVal, cost, d, FALSE) /\ L([a |-> "insert", c |-> c, i |-> k[1], f |-> k[2], cost |-> cost, d |-> d])
-       \/ /\ "insert_if_present" \in Ops /\ nextVal \in Val /\ nextVal' = nextVal + 1
+       \/ /\ "insert_if_present" \in (Ops \cap ClientOps[c]) /\ nextVal \in Val /\ nextVal' = nextVal + 1
           /\ \E k \in MCKeys, cost \in CostSet :
                 InsBegin(c, k, nextVal, cost, 0, TRUE) /\ L([a |-> "insert_if_present", c |-> c, i |-> k[1], f |-> k[2], cost |-> cost])
        \/ /\ UNCHANGED nextVal
-          /\ \/ "remove" \in Ops /\ \E k \in MCKeys : RemStore(c, k) /\ L([a |-> "remove", c |-> c, i |-> k[1], f |-> k[2]])
-             \/ "get" \in Ops /\ \E k \in MCKeys : Get(c, k) /\ L([a |-> "get", c |-> c, i |-> k[1], f |-> k[2]])
-             \/ "get_mut" \in Ops /\ \E k \in MCKeys : GetMut(c, k) /\ L([a |-> "get_mut", c |-> c, i |-> k[1], f |-> k[2]])
-             \/ "get_ttl" \in Ops /\ \E k \in MCKeys : GetTtl(c, k) /\ L([a |-> "get_ttl", c |-> c, i |-> k[1], f |-> k[2]])
-             \/ "clear" \in Ops /\ ClrSend(c, "clear") /\ L([a |-> "clear", c |-> c])
-             \/ "close" \in Ops /\ ClrSend(c, "close") /\ L([a |-> "close", c |-> c])
-             \/ "wait" \in Ops /\ WaitSend(c) /\ L([a |-> "wait", c |-> c])
-             \/ "set_max" \in Ops /\ \E m \in SetMaxSet : SetMax(c, m) /\ L([a |-> "set_max", c |-> c, m |-> m])
+          /\ \/ "remove" \in (Ops \cap ClientOps[c]) /\ \E k \in MCKeys : RemStore(c, k) /\ L([a |-> "remove", c |-> c, i |-> k[1], f |-> k[2]])
+             \/ "get" \in (Ops \cap ClientOps[c]) /\ \E k \in MCKeys : Get(c, k) /\ L([a |-> "get", c |-> c, i |-> k[1], f |-> k[2]])
+             \/ "get_mut" \in (Ops \cap ClientOps[c]) /\ \E k \in MCKeys : GetMut(c, k) /\ L([a |-> "get_mut", c |-> c, i |-> k[1], f |-> k[2]])
+             \/ "get_ttl" \in (Ops \cap ClientOps[c]) /\ \E k \in MCKeys : GetTtl(c, k) /\ L([a |-> "get_ttl", c |-> c, i |-> k[1], f |-> k[2]])
+             \/ "clear" \in (Ops \cap ClientOps[c]) /\ ClrSend(c, "clear") /\ L([a |-> "clear", c |-> c])
+             \/ "close" \in (Ops \cap ClientOps[c]) /\ ClrSend(c, "close") /\ L([a |-> "close", c |-> c])
+             \/ "wait" \in (Ops \cap ClientOps[c]) /\ WaitSend(c) /\ L([a |-> "wait", c |-> c])
+             \/ "set_max" \in (Ops \cap ClientOps[c]) /\ \E m \in SetMaxSet : SetMax(c, m) /\ L([a |-> "set_max", c |-> c, m |-> m])
 
 SimClientStep(c) == ClientStep(c) /\ L([a |-> "cstep", c |-> c])
 
